@@ -34,10 +34,74 @@ type Case struct {
 	PanicCB   bool  `json:"panicCB"`   // error callback panics with a sentinel
 	Scopes    []pbt.M `json:"scopes"`  // tag VALUES for keys a,b per scope (same key set), plus optional subscope
 	Ops       []Op  `json:"ops"`
+	VSpecs    [][]pbt.F `json:"vspecs"` // strictly increasing finite value specs (generated)
+	DSpecs    [][]int64 `json:"dspecs"` // strictly increasing duration specs in ns (generated)
 }
 
-var vspecs = [][]float64{{1, 2, 5}, {0.5}, {-3, 0, 3, 10}, {0.1, 0.2, 0.3}}
-var dspecs = [][]time.Duration{{time.Millisecond, 10 * time.Millisecond, time.Second}, {5 * time.Millisecond}, {0, time.Microsecond, time.Minute}}
+// pools the generated specs are drawn from (then de-duplicated and sorted): the fixed specs of the
+// first version of this check, plus decimals, huge/tiny magnitudes and neighbours one ulp apart
+var vpool = []float64{1, 2, 5, 0.5, -3, 0, 3, 10, 0.1, 0.2, 0.3, 0.7, 1.1, 2.5, 100, 1e-300, 1e300, -1e300, -0.25, 1e-9,
+	math.Nextafter(1, 2), math.Nextafter(1, 0), math.Nextafter(0.3, 1), 1 << 53, 123456.789}
+
+func genVSpec(t *rapid.T) []pbt.F {
+	n := rapid.IntRange(1, 8).Draw(t, "vn")
+	set := map[float64]bool{}
+	for i := 0; i < n; i++ {
+		var v float64
+		switch rapid.IntRange(0, 2).Draw(t, "vsrc") {
+		case 0:
+			v = rapid.SampledFrom(vpool).Draw(t, "vp")
+		case 1:
+			v = float64(rapid.IntRange(-5000, 100000).Draw(t, "vm")) / 1000
+		default:
+			v = rapid.Float64Range(-1e6, 1e6).Draw(t, "vf")
+		}
+		if v == 0 {
+			v = 0 // no negative zero
+		}
+		set[v] = true
+	}
+	var fs []float64
+	for v := range set {
+		fs = append(fs, v)
+	}
+	sort.Float64s(fs)
+	out := make([]pbt.F, len(fs))
+	for i, v := range fs {
+		out[i] = pbt.FOf(v)
+	}
+	return out
+}
+
+// durations stay below 1e15 ns (11 days): there the conversion to float seconds is strictly
+// increasing for bounds >= 1 ns apart, which Prometheus requires of a histogram's bounds
+var dpool = []int64{0, 1, 1000, int64(time.Millisecond), int64(5 * time.Millisecond), int64(10 * time.Millisecond), int64(time.Second), int64(time.Minute),
+	int64(time.Hour), 999999999, 1000000001, int64(1128 * time.Millisecond), int64(1253 * time.Millisecond), 999999999999999}
+
+func genDSpec(t *rapid.T) []int64 {
+	n := rapid.IntRange(1, 8).Draw(t, "dn")
+	set := map[int64]bool{}
+	for i := 0; i < n; i++ {
+		var d int64
+		switch rapid.IntRange(0, 3).Draw(t, "dsrc") {
+		case 0:
+			d = rapid.SampledFrom(dpool).Draw(t, "dp")
+		case 1:
+			d = int64(rapid.IntRange(1, 100000).Draw(t, "dms")) * int64(time.Millisecond) // millisecond granular, up to 100 s
+		case 2:
+			d = rapid.Int64Range(0, 999999999999999).Draw(t, "dns")
+		default:
+			d = int64(rapid.IntRange(1, 5000).Draw(t, "dus")) * int64(time.Microsecond)
+		}
+		set[d] = true
+	}
+	var ds []int64
+	for d := range set {
+		ds = append(ds, d)
+	}
+	sort.Slice(ds, func(i, j int) bool { return ds[i] < ds[j] })
+	return ds
+}
 
 var conflicts = []string{"counter-then-gauge", "gauge-then-counter", "timer-then-histogram", "histogram-then-timer", "counter-other-tagkeys", "gauge-other-tagkeys", "histogram-other-tagkeys", "timer-other-tagkeys", "counter-then-timer", "histogram-then-counter"}
 
@@ -46,6 +110,12 @@ func gen(t *rapid.T) Case {
 	ns := rapid.IntRange(1, 4).Draw(t, "nscopes")
 	for i := 0; i < ns; i++ {
 		c.Scopes = append(c.Scopes, pbt.M{"a": pbt.S(rapid.SampledFrom([]string{"x", "y", "z"}).Draw(t, "va")), "b": pbt.S(rapid.SampledFrom([]string{"1", "2"}).Draw(t, "vb"))})
+	}
+	for i, nv := 0, rapid.IntRange(1, 3).Draw(t, "nvspecs"); i < nv; i++ {
+		c.VSpecs = append(c.VSpecs, genVSpec(t))
+	}
+	for i, nd := 0, rapid.IntRange(1, 3).Draw(t, "ndspecs"); i < nd; i++ {
+		c.DSpecs = append(c.DSpecs, genDSpec(t))
 	}
 	n := rapid.IntRange(1, 30).Draw(t, "nops")
 	for i := 0; i < n; i++ {
@@ -60,24 +130,28 @@ func gen(t *rapid.T) Case {
 		case "timer":
 			op.I = pbt.AnyInt64().Draw(t, "d")
 		case "vhist":
-			op.Spec = rapid.IntRange(0, len(vspecs)-1).Draw(t, "spec")
-			sp := vspecs[op.Spec]
-			switch rapid.IntRange(0, 2).Draw(t, "vk") {
+			op.Spec = rapid.IntRange(0, len(c.VSpecs)-1).Draw(t, "spec")
+			sp := c.VSpecs[op.Spec]
+			switch rapid.IntRange(0, 3).Draw(t, "vk") {
 			case 0:
-				op.F = pbt.FOf(sp[rapid.IntRange(0, len(sp)-1).Draw(t, "bi")])
+				op.F = sp[rapid.IntRange(0, len(sp)-1).Draw(t, "bi")]
 			case 1:
-				op.F = pbt.FOf(math.Nextafter(sp[rapid.IntRange(0, len(sp)-1).Draw(t, "bi")], math.Inf(1)))
+				op.F = pbt.FOf(math.Nextafter(sp[rapid.IntRange(0, len(sp)-1).Draw(t, "bi")].V(), math.Inf(1)))
+			case 2:
+				op.F = pbt.FOf(math.Nextafter(sp[rapid.IntRange(0, len(sp)-1).Draw(t, "bi")].V(), math.Inf(-1)))
 			default:
 				op.F = pbt.FOf(float64(rapid.IntRange(-40, 120).Draw(t, "v")) / 10)
 			}
 		case "dhist":
-			op.Spec = rapid.IntRange(0, len(dspecs)-1).Draw(t, "spec")
-			sp := dspecs[op.Spec]
-			switch rapid.IntRange(0, 2).Draw(t, "dk") {
+			op.Spec = rapid.IntRange(0, len(c.DSpecs)-1).Draw(t, "spec")
+			sp := c.DSpecs[op.Spec]
+			switch rapid.IntRange(0, 3).Draw(t, "dk") {
 			case 0:
-				op.I = int64(sp[rapid.IntRange(0, len(sp)-1).Draw(t, "bi")])
+				op.I = sp[rapid.IntRange(0, len(sp)-1).Draw(t, "bi")]
 			case 1:
-				op.I = int64(sp[rapid.IntRange(0, len(sp)-1).Draw(t, "bi")]) + 1
+				op.I = sp[rapid.IntRange(0, len(sp)-1).Draw(t, "bi")] + 1
+			case 2:
+				op.I = sp[rapid.IntRange(0, len(sp)-1).Draw(t, "bi")] - 1
 			default:
 				op.I = rapid.Int64Range(-1e6, 2e9).Draw(t, "d")
 			}
@@ -98,6 +172,8 @@ type series struct {
 	samples []float64
 	timers  int
 	spec    []float64
+	dspec   []int64 // duration histograms: bounds and samples in ns (judged in the integer domain)
+	dsamp   []int64
 }
 
 func labelKey(m map[string]string) string {
@@ -174,7 +250,13 @@ func run(c Case) (pbt.Outcome, error) {
 			get(name, labels).timers++
 		case "vhist":
 			name := fmt.Sprintf("hv_%d", op.Spec)
-			sp := vspecs[op.Spec]
+			if len(c.VSpecs) == 0 {
+				continue
+			}
+			var sp []float64
+			for _, b := range c.VSpecs[op.Spec%len(c.VSpecs)] {
+				sp = append(sp, b.V())
+			}
 			p = try(func() { sc.Histogram(name, tally.ValueBuckets(append([]float64(nil), sp...))).RecordValue(op.F.V()) })
 			s := get(name, labels)
 			s.spec = sp
@@ -186,25 +268,24 @@ func run(c Case) (pbt.Outcome, error) {
 			}
 		case "dhist":
 			name := fmt.Sprintf("hd_%d", op.Spec)
-			sp := dspecs[op.Spec]
+			if len(c.DSpecs) == 0 {
+				continue
+			}
+			var sp []time.Duration
+			for _, b := range c.DSpecs[op.Spec%len(c.DSpecs)] {
+				sp = append(sp, time.Duration(b))
+			}
 			p = try(func() { sc.Histogram(name, tally.DurationBuckets(append([]time.Duration(nil), sp...))).RecordDuration(time.Duration(op.I)) })
 			s := get(name, labels)
-			s.spec = nil
+			s.spec, s.dspec = nil, c.DSpecs[op.Spec%len(c.DSpecs)]
 			for _, b := range sp {
 				s.spec = append(s.spec, float64(b)/float64(time.Second))
 				if time.Duration(op.I) == b {
 					boundary = true
 				}
 			}
-			// a duration sample is compared in the integer domain: remember the smallest bound >= d, in seconds
-			v := math.Inf(1)
-			for _, b := range sp {
-				if b >= time.Duration(op.I) {
-					v = float64(b) / float64(time.Second)
-					break
-				}
-			}
-			s.samples = append(s.samples, v)
+			s.dsamp = append(s.dsamp, op.I)
+			s.samples = append(s.samples, float64(op.I)/1e9) // only its count is used
 		case "pass":
 			p = try(func() { tally.VerifReportOnce(root) })
 		case "conflict":
@@ -358,17 +439,27 @@ func run(c Case) (pbt.Outcome, error) {
 					if bi >= len(s.spec) {
 						break
 					}
-					if b.GetUpperBound() != s.spec[bi] {
+					// the bound itself is compared up to a few ulps for durations ("in seconds" does not
+					// fix the rounding of the conversion); the cumulative counts are judged exactly
+					if ub := b.GetUpperBound(); ub != s.spec[bi] && !(s.dspec != nil && math.Abs(ub-s.spec[bi]) <= 4e-16*math.Abs(s.spec[bi])) {
 						errs.Addf("%s%v: bucket %d bound %v, want %v", f.GetName(), labels, bi, b.GetUpperBound(), s.spec[bi])
 					}
 					cnt := 0
-					for _, v := range s.samples {
-						if v <= s.spec[bi] {
-							cnt++
+					if s.dspec != nil {
+						for _, d := range s.dsamp {
+							if d <= s.dspec[bi] {
+								cnt++
+							}
+						}
+					} else {
+						for _, v := range s.samples {
+							if v <= s.spec[bi] {
+								cnt++
+							}
 						}
 					}
 					if int(b.GetCumulativeCount()) != cnt {
-						errs.Addf("%s%v: cumulative count at le=%v is %d, want %d (samples %v)", f.GetName(), labels, s.spec[bi], b.GetCumulativeCount(), cnt, s.samples)
+						errs.Addf("%s%v: cumulative count at le=%v is %d, want %d = number of recorded samples <= that bound (samples %v %v, spec %v %v)", f.GetName(), labels, s.spec[bi], b.GetCumulativeCount(), cnt, s.samples, s.dsamp, s.spec, s.dspec)
 					}
 				}
 			}
@@ -400,7 +491,7 @@ func run(c Case) (pbt.Outcome, error) {
 func TestC17(t *testing.T) {
 	pbt.Main(t, pbt.Prop[Case]{
 		ID: "C17", Name: "prometheus",
-		Rule: "rapid-generated histories (1..30 ops) on a tally root whose cached reporter is the Prometheus reporter on a fresh registry (separator '_', Prometheus sanitizer; timers as summaries or histograms; error callback returning or panicking with a sentinel): counters (non-negative deltas), gauges (hostile float bits), timers, value and duration histograms with strictly increasing finite specs and samples on / one ulp or ns above / around the bounds, 1..4 tagged scopes with the same tag keys and different values, report passes, and conflict programs (a name reused for another kind: counter/gauge, timer/histogram, counter/timer, histogram/counter; or with other tag keys) whose result is then used through every method. Oracle after a final pass: Gather() shows counter == sum, gauge == last update (bits), cumulative bucket counts == #samples <= bound with bounds == spec (durations in seconds) and total == #samples, timer count == #values, one family per name and one series per tag-value combination; conflicts: no panic other than the sentinel, at any point, and a rejected registration with other tag keys leaves the first, accepted family exposed with its values. Non-trivial: a sample equal to a bound, or >=2 series in a family, or a cross-kind/tag-key conflict. Distinct: FNV-64 of the case JSON.",
+		Rule: "rapid-generated histories (1..30 ops) on a tally root whose cached reporter is the Prometheus reporter on a fresh registry (separator '_', Prometheus sanitizer; timers as summaries or histograms; error callback returning or panicking with a sentinel): counters (non-negative deltas), gauges (hostile float bits), timers, value and duration histograms with GENERATED strictly increasing finite specs (1..8 bounds from pools of decimals, huge/tiny magnitudes, one-ulp neighbours; durations ns..11 days incl. millisecond-granular bounds above 1 s) and samples on / one ulp or ns above and below / around the bounds, 1..4 tagged scopes with the same tag keys and different values, report passes, and conflict programs (a name reused for another kind: counter/gauge, timer/histogram, counter/timer, histogram/counter; or with other tag keys) whose result is then used through every method. Oracle after a final pass: Gather() shows counter == sum, gauge == last update (bits), cumulative bucket counts == #samples <= bound with bounds == spec (durations in seconds) and total == #samples, timer count == #values, one family per name and one series per tag-value combination; conflicts: no panic other than the sentinel, at any point, and a rejected registration with other tag keys leaves the first, accepted family exposed with its values. Non-trivial: a sample equal to a bound, or >=2 series in a family, or a cross-kind/tag-key conflict. Distinct: FNV-64 of the case JSON.",
 		Gen:  gen, Run: run,
 	})
 }
